@@ -10,6 +10,31 @@ import traceback
 from . import common, tlc
 
 
+def _watchdog(pid, tier):
+    """A check must never hang: a pool worker killed by the kernel (out of memory) makes multiprocessing wait for ever.
+    After the limit the run is a machinery failure (exit 2), never a verdict.  SIGALRM in the main process (no thread: the
+    drivers fork worker pools); forked children do not inherit the alarm."""
+    import signal
+    limit = int(float(os.environ.get('VERIF_WATCHDOG_S', 2700 if tier == 'quick' else 4 * 3600)))
+    main_pid = os.getpid()
+
+    def fire(signum, frame):
+        if os.getpid() != main_pid:
+            return
+        print('MACHINERY-FAILURE property=%s no result after %d s (a worker process may have been killed); giving up' % (pid, limit),
+              file=sys.stderr)
+        sys.stderr.flush()
+        try:
+            import multiprocessing
+            for child in multiprocessing.active_children():
+                child.kill()
+        except Exception:       # noqa
+            pass
+        os._exit(2)
+    signal.signal(signal.SIGALRM, fire)
+    signal.alarm(limit)
+
+
 def main():
     ap = argparse.ArgumentParser()
     ap.add_argument('pid')
@@ -29,6 +54,7 @@ def main():
     import glob
     for old in glob.glob(os.path.join(common.REPLAY_DIR, pid + '_*.json')):      # replays of earlier runs of this check
         os.remove(old)
+    _watchdog(pid, args.tier)
     level = getattr(mod, 'LEVEL', 'model_checking')
     ev = common.Evidence(pid, args.tier, seed, level)
     vd = common.Verdicts(pid, ev, getattr(mod, 'SIGNATURES', None))
